@@ -19,6 +19,7 @@ EXPLANATION = (
     "(R14.7) the covered fraction rests on the intersection clauses shared with C08 (pre-filter wiring with both radii, clip of polygons of both boxes, fresh clones)."
     ' R14.1 also requires that nothing but option plumbing touches the rank (no clamp / arithmetic on the score).'
     ' R14.1 also requires a stable ranking sort (ties in input order: top of a tie kept, nms(nms(x)) = nms(x)); (R14.8) the clipping predicate behind the covered fraction is a sign test.')
+EXPLANATION += ' R14.3 also requires the covered fraction to be exactly intersection / area (no added epsilon, no factor).'
 NOT_DECIDED = ["maximality / independence / idempotence for concrete geometry", "exactness of the intersection area (C08, N/A)"]
 ASSUMPTIONS = ["itertools::sorted_by is a stable sort by the comparator", "rustc nightly MIR construction"]
 NMS = 'utils::nms::nms'
@@ -234,6 +235,11 @@ def run(ctx):
             a_ = area[0].args[0]
             # inner element comes from the suffix after the outer position, outer from the walk over all candidates
             ok = elem_role(i_) == 'inner' and elem_role(o_) == 'outer' and repr(a_.strip()) == repr(i_.strip())
+            if ok and not (num.strip() is inter[0] and den.strip() is area[0]):
+                # the fraction IS intersection / area: a term added to the area (an epsilon 'against division by
+                # zero') lowers the fraction of small boxes below the threshold; a factor changes the threshold
+                ok = False
+                detail = 'numerator / denominator carry arithmetic besides the two calls: ' + detail
         ctx.check(ok, R, b, 'fraction=intersection(outer,inner)/area(inner)', detail[:200],
                   'the covered fraction is %s: expected intersection(higher-ranked, lower-ranked) divided by the area '
                   'of the lower-ranked (inner-loop) box' % detail[:300])
